@@ -792,6 +792,37 @@ pub fn run(tier: Tier) -> i32 {
         rep.guard(!seqs3.is_empty(), "forgotten-document prefixes found");
         do_layer(&mut rep, "inproc-pairs-after-a-forgotten-document", &seqs3, false);
     }
+    // the life of one document: every sequence of <= 4 (quick) / 5 (thorough) messages about d1, and one message more over a core alphabet
+    // (open again, valid / full / unappliable change, close, save, watched-file deleted, a request)
+    // and the opening of a second document - closed, vanished and re-used store slots included
+    {
+        let names = ["open-d1-again", "change-d1-valid", "change-d1-full", "change-d1-line-far-beyond", "close-d1", "save-d1", "watch-deleted-d1-open", "open-d2", "hover-d1-valid"];
+        let idx: Vec<usize> = names.iter().filter_map(|n| tpls.iter().position(|t| t.name() == *n)).collect();
+        rep.guard(idx.len() == names.len(), "life-cycle templates found");
+        // full alphabet to depth 4 (quick) / 5 (thorough); one level deeper over the six messages
+        // that change the store (no save, no request, no second open of d1)
+        let depth = tier.pick(4usize, 5usize);
+        let core: Vec<usize> = idx.iter().copied().filter(|i| !matches!(tpls[*i].name(), "save-d1" | "hover-d1-valid" | "open-d1-again")).collect();
+        let mut seqs: Vec<Vec<usize>> = vec![];
+        for (alphabet, d) in [(&idx, depth), (&core, depth + 1)] {
+            let mut frontier: Vec<Vec<usize>> = vec![vec![]];
+            for level in 0..d {
+                let mut next = vec![];
+                for f in &frontier {
+                    for &i in alphabet.iter() {
+                        let mut g = f.clone();
+                        g.push(i);
+                        next.push(g);
+                    }
+                }
+                if alphabet.len() == idx.len() || level + 1 == d {
+                    seqs.extend(next.iter().cloned());
+                }
+                frontier = next;
+            }
+        }
+        do_layer(&mut rep, &format!("inproc-life-of-a-document-le{}", depth + 1), &seqs, false);
+    }
     // URI shapes: per URI all sequences over its own six messages (followed by the canary checks)
     let mut uri_classes: BTreeSet<String> = BTreeSet::new();
     {
